@@ -123,9 +123,10 @@ def make_peg(spec):
     n = spec['n']
 
     def reference(t):
+        r = Ref(g, t)
         try:
-            v, q = Ref(g, t).parse(start)
-            return ('ok', v, q)
+            v, q = r.parse(start)
+            return ('ok', v, q, r.pruned)
         except Fail:
             return ('fail',)
 
@@ -161,7 +162,8 @@ def make_peg(spec):
                 return False, 'gen-outcome', [real[0], other[0], other[1] if other[0] in ('exception',) else None]
             if real[0] == 'ok' and not (norm(other[1]) == ast):
                 return False, 'gen-ast', [skel(ast), skel(norm(other[1]))]
-        if nocut is not None and real[0] == 'ok':
+        # cut erasure: only claimed when no commit was used, i.e. the committed paths themselves parse the input
+        if nocut is not None and real[0] == 'ok' and not (use_ref and ref[3]):
             other = guarded(nocut.parse, t)
             if other[0] != 'ok':
                 return False, 'cut-changes-outcome', [other[0]]
